@@ -1,9 +1,9 @@
 """C09 - galaxies follow the HOD threshold rule and inherit their host (also used by C10).
 
 Deductive part (E1, real ASTs): `wrap` maps |x| < 3L/2 into [-L/2, L/2) by a whole box; `fast_concatenate` returns a1 ++ a2 for
-every Nthread >= 1 with every index written by exactly one iteration (C10).  The two-pass kernels gen_cent / gen_sats (box observer) are
+every Nthread >= 1 with every index written by exactly one iteration (C10).  The two-pass kernels gen_cent / gen_sats (box and light-cone observer) are
 under the functional contracts of contracts/hodk.py (stacked markers -> CODE, row RK(c, q) of tracer c carries host q); the gen_gals
-assembly, the light-cone branch and floating point are checked by the bounded stand-in below (run-time evaluation of the contract
+assembly and floating point are checked by the bounded stand-in below (run-time evaluation of the contract
 written from the property statement).
 
 Run-time contract: for fixed tables and their stored uniform randoms a host carries tracer T iff its random falls in T's slice
@@ -309,8 +309,8 @@ def check(run):
     hodk.prove_kernels(run, 'C09', run.tier)
     run.discharge()
     bounded(run, 'C09')
-    run.extra['explanation'] = ('wrap, fast_concatenate and the two-pass kernels gen_cent / gen_sats (box observer; tracer subsets x RSD x ranks; see contracts/hodk.py) proved by the E1 engine '
-                                'on the real ASTs; the light-cone origin branch and the gen_gals assembly are covered by the bounded stand-in '
+    run.extra['explanation'] = ('wrap, fast_concatenate and the two-pass kernels gen_cent / gen_sats (box and light-cone observer; tracer subsets x RSD x ranks; see contracts/hodk.py) proved by the E1 engine '
+                                'on the real ASTs; the gen_gals assembly and floating point are covered by the bounded stand-in '
                                 '(run-time contract evaluation against a sequential reference), not proved')
     run.assumptions += ['occupation functions are "the package\'s mean-occupation functions": the reference calls the same compiled functions at the arguments the statement names',
                         'exact ties (random == slice edge) are unconstrained and avoided by redrawing', 'gen_sats_nfw (random draws) is outside the statement',
